@@ -4,13 +4,18 @@ Model coq/C22/Model.v: per thread two cells (C errno, cffi's saved copy), operat
 get/set, C call enter/exit (restore/save), callback enter/exit (save/restore), C code reading and
 assigning errno, interpreter noise.  Theorems: for every schedule over any number of threads each
 thread observes ONE logical errno of its own (Spec.v) — non-interference + refinement; the same
-code with a process-wide saved cell is refuted.
-Tie: correspondence.  2-4 real threads run generated programs (ffi.errno, C helper called through
-ffi.dlopen and through a compiled API-mode module, callbacks / extern "Python" that themselves
-read/assign ffi.errno and call C again) under model-chosen interleavings with hand-over points also
-in the middle of C calls; per-thread observations are compared with the Coq model (run inside Coq)
-and the property is decided on the implementation against the one-cell specification and against
-the same programs run without interleaving.
+code with a process-wide saved cell is refuted.  C22/Micro.v: the same at statement granularity, each
+operation expanded into the regenerated statements of the code path it takes; C22/Proofs2.v: every
+syntactic path of cffi_call_python / invoke_callback (regenerated control-flow trees) has
+save_errno() first and restore_errno() last with everything else in between.
+Tie: regenerated facts (C22/Gen.v, see extract_facts) + correspondence.  1-4 real threads run
+generated programs (ffi.errno, C helper called through ffi.dlopen and through a compiled API-mode
+module, callbacks / extern "Python" that themselves read/assign ffi.errno and call C again, that
+raise with or without onerror=, that are not attached at all, that are invoked from pthreads which
+never held the GIL) under model-chosen interleavings with hand-over points also in the middle of C
+calls; per-thread observations are compared with the Coq model (run inside Coq) and the property is
+decided on the implementation against the one-cell specification and against the same programs run
+without interleaving.
 """
 import ast
 import concurrent.futures
@@ -96,6 +101,140 @@ def _allow_threads_region(text, anchor_re, what):
     return text[a + len("Py_BEGIN_ALLOW_THREADS"):b]
 
 
+# ---- control flow of the callback brackets (cffi_call_python, invoke_callback), statement by statement
+
+CALLEES = {"save_errno": "CSave", "restore_errno": "CRestore", "general_invoke_callback": "CInvoke",
+           "gil_ensure": "CNoise NGilEnsure", "gil_release": "CNoise NGilRelease",
+           "_update_cache_to_call_python": "CNoise NUpdateCache", "fprintf": "CNoise NReport",
+           "memset": "CNoise NMemset", "read_barrier": "CPure"}
+PURE_CALLEES = {"_current_interp_key"}
+C_KEYWORDS = {"if", "else", "for", "while", "do", "switch", "case", "goto", "return", "sizeof", "break", "continue",
+              "default"}
+
+
+def _strip_strings(text, what):
+    out, i = [], 0
+    while i < len(text):
+        ch = text[i]
+        if ch in "\"'":
+            j = i + 1
+            while j < len(text) and text[j] != ch:
+                j += 2 if text[j] == "\\" else 1
+            if j >= len(text):
+                raise U(what + ": unterminated literal")
+            out.append(ch + ch)
+            i = j + 1
+        else:
+            out.append(ch)
+            i += 1
+    return "".join(out)
+
+
+def _match(text, i, what):
+    """index just after the bracket that closes the one at text[i]"""
+    pairs = {"(": ")", "{": "}", "[": "]"}
+    stack = []
+    j = i
+    while j < len(text):
+        ch = text[j]
+        if ch in pairs:
+            stack.append(pairs[ch])
+        elif ch in ")}]":
+            if not stack or stack.pop() != ch:
+                raise U(what + ": unbalanced brackets")
+            if not stack:
+                return j + 1
+        j += 1
+    raise U(what + ": unbalanced brackets")
+
+
+def _calls(st):
+    return [m.group(1) for m in re.finditer(r"\b([A-Za-z_]\w*)\s*\(", st) if m.group(1) not in C_KEYWORDS]
+
+
+def _classify(st, what):
+    st = " ".join(st.split())
+    if re.match(r"return\b", st):
+        if _calls(st) or re.search(r"\berrno\b", st):
+            raise U("%s: unexpected return statement %r" % (what, st))
+        return "CReturn"
+    if re.match(r"(goto|break|continue|case|default|do|for|while|switch)\b", st) or re.match(r"[A-Za-z_]\w*\s*:", st):
+        raise U("%s: control flow the translator does not handle: %r" % (what, st))
+    calls = [c for c in _calls(st) if c not in PURE_CALLEES]
+    if not calls:
+        if re.search(r"\berrno\b", st):
+            raise U("%s: statement touches errno directly: %r" % (what, st))
+        return "CPure"
+    if len(calls) != 1 or calls[0] not in CALLEES:
+        raise U("%s: statement calls %s, which the translator does not know: %r" % (what, ", ".join(calls), st))
+    return CALLEES[calls[0]]
+
+
+def _parse_stmt(text, i, what):
+    """one statement starting at text[i] (whitespace skipped): returns (list of cfg items, next index)"""
+    while i < len(text) and text[i].isspace():
+        i += 1
+    if text[i] == "{":
+        j = _match(text, i, what)
+        return _parse_block(text[i + 1:j - 1], what), j
+    m = re.match(r"if\s*\(", text[i:])
+    if m:
+        a = i + m.end() - 1
+        b = _match(text, a, what)
+        cond = " ".join(text[a + 1:b - 1].split())
+        if [c for c in _calls(cond) if c not in PURE_CALLEES] or re.search(r"\berrno\b|=(?!=)(?<![!<>=]=)", cond):
+            raise U("%s: condition with side effects: %r" % (what, cond))
+        then, j = _parse_stmt(text, b, what)
+        k = j
+        while k < len(text) and text[k].isspace():
+            k += 1
+        els = []
+        if re.match(r"else\b", text[k:]):
+            els, j = _parse_stmt(text, k + 4, what)
+        return [("CIf", cond, then, els)], j
+    j = i
+    while j < len(text) and text[j] != ";":
+        if text[j] in "({[":
+            j = _match(text, j, what)
+        elif text[j] in ")}]":
+            raise U(what + ": unbalanced brackets")
+        else:
+            j += 1
+    if j >= len(text):
+        raise U("%s: statement without ';': %r" % (what, text[i:i + 60]))
+    return [_classify(text[i:j], what)], j + 1
+
+
+def _parse_block(text, what):
+    out, i = [], 0
+    while text[i:].strip():
+        items, i = _parse_stmt(text, i, what)
+        out += items
+    return out
+
+
+def extract_cfg(source, header_re, what):
+    body = _body(source, header_re, what)
+    if re.search(r"^\s*#", body, re.M):
+        raise U(what + ": preprocessor directive inside the function body")
+    return _parse_block(_strip_strings(body, what), what)
+
+
+def cfg_coq(items):
+    out = []
+    for it in items:
+        if isinstance(it, (tuple, list)):
+            cond = re.sub(r"[^A-Za-z0-9_ !=<>&|.\-]", "", it[1].replace("->", "."))
+            out.append("CIf (* %s *) %s %s" % (cond, cfg_coq(it[2]), cfg_coq(it[3])))
+        else:
+            out.append(it)
+    return "[" + "; ".join(out) + "]"
+
+
+def _norm_cfg(items):
+    return [["CIf", it[1], _norm_cfg(it[2]), _norm_cfg(it[3])] if isinstance(it, (tuple, list)) else it for it in items]
+
+
 def extract_facts():
     f = {}
     common = _nocomment(_src("c/misc_thread_common.h"))
@@ -167,18 +306,17 @@ def extract_facts():
     # call_python.c
     cp = _nocomment(_src("c/call_python.c"))
     body = _body(cp, r"static\s+void\s+cffi_call_python\s*\([^)]*\)\s*\{", "cffi_call_python")
+    # textual order of the three kinds of statements (early returns, branches: see gen_call_python_cfg below)
     toks = [(mm.start(), mm.group(0)) for mm in re.finditer(r"\bsave_errno\s*\(\s*\)|\brestore_errno\s*\(\s*\)|"
-                                                             r"\bgeneral_invoke_callback\s*\(|\breturn\b", body)]
+                                                             r"\bgeneral_invoke_callback\s*\(", body)]
     seq = []
     for _pos, tk in toks:
         if tk.startswith("save_errno"):
             seq.append("BSave")
         elif tk.startswith("restore_errno"):
             seq.append("BRestore")
-        elif tk.startswith("general_invoke_callback"):
-            seq.append("BForeign")
         else:
-            raise U("cffi_call_python: a return statement could skip restore_errno()")
+            seq.append("BForeign")
     f["gen_call_python"] = seq
     # cglob.c
     cg = _nocomment(_src("c/cglob.c"))
@@ -212,6 +350,23 @@ def extract_facts():
         else:
             raise U("recompiler: unexpected line in the wrapper's call region: %r" % t)
     f["gen_api_wrapper"] = seq
+    # control flow of the two functions that bracket a callback, and what lies inside the bracket
+    f["gen_call_python_cfg"] = _norm_cfg(extract_cfg(cp, r"static\s+void\s+cffi_call_python\s*\([^)]*\)\s*\{",
+                                                     "cffi_call_python"))
+    f["gen_invoke_callback_cfg"] = _norm_cfg(extract_cfg(back, r"static\s+void\s+invoke_callback\s*\([^)]*\)\s*\{",
+                                                         "invoke_callback"))
+    giv = _body(back, r"static\s+void\s+general_invoke_callback\s*\([^)]*\)\s*\{", "general_invoke_callback")
+    f["gen_general_invoke_callback_leaves_bracket_alone"] = not re.search(
+        r"\berrno\b|\bsave_errno|\brestore_errno", giv)
+    # every call of general_invoke_callback() in src/c lies in one of the two bracketing functions
+    total = 0
+    for fn in sorted(os.listdir(os.path.join(vlib.REPO, "src", "c"))):
+        if fn.endswith((".c", ".h")):
+            total += len(re.findall(r"\bgeneral_invoke_callback\s*\(", _nocomment(_src("c/" + fn))))
+    inside = len(re.findall(r"\bgeneral_invoke_callback\s*\(", body)) + len(re.findall(
+        r"\bgeneral_invoke_callback\s*\(", _body(back, r"static\s+void\s+invoke_callback\s*\([^)]*\)\s*\{",
+                                                  "invoke_callback")))
+    f["gen_general_invoke_callback_only_called_inside_brackets"] = (total == inside + 1)
     return f
 
 
@@ -222,17 +377,33 @@ SNAPSHOT_FACTS = dict(
     gen_api_export_slots_ok=True, gen_glob_fetch=["BRestore", "BForeign", "BSave"],
     gen_invoke_callback=["BSave", "BForeign", "BRestore"], gen_call_python=["BSave", "BForeign", "BRestore"],
     gen_get_errno=["ERestoreOnly", "EReadErrno", "EZeroErrno"], gen_set_errno=["EAssignErrno", "ESaveOnly", "EZeroErrno"],
-    gen_set_errno_range=(-2 ** 31, 2 ** 31 - 1))
+    gen_set_errno_range=(-2 ** 31, 2 ** 31 - 1),
+    gen_call_python_cfg=[
+        "CPure", "CPure", "CSave",
+        ["CIf", "externpy->reserved1 == NULL", ["CPure"],
+         ["CNoise NGilEnsure", ["CIf", "externpy->reserved1 != _current_interp_key()", ["CNoise NUpdateCache"], []],
+          ["CIf", "!err", ["CInvoke"], []], "CNoise NGilRelease"]],
+        ["CIf", "err", ["CPure", "CNoise NReport", "CNoise NMemset"], []], "CRestore"],
+    gen_invoke_callback_cfg=["CSave", "CNoise NGilEnsure", "CInvoke", "CNoise NGilRelease", "CRestore"],
+    gen_general_invoke_callback_leaves_bracket_alone=True,
+    gen_general_invoke_callback_only_called_inside_brackets=True)
 ORDER = ["gen_saved_thread_local", "gen_save_errno_only_copies_errno_to_saved",
          "gen_restore_errno_only_copies_saved_to_errno", "gen_posix_aliases", "gen_b_call", "gen_api_wrapper",
          "gen_api_export_slots_ok", "gen_glob_fetch", "gen_invoke_callback", "gen_call_python", "gen_get_errno",
-         "gen_set_errno", "gen_set_errno_range"]
+         "gen_set_errno", "gen_set_errno_range", "gen_call_python_cfg", "gen_invoke_callback_cfg",
+         "gen_general_invoke_callback_leaves_bracket_alone", "gen_general_invoke_callback_only_called_inside_brackets"]
 WHERE = dict(gen_saved_thread_local="misc_thread_common.h: storage class of cffi_saved_errno",
              gen_b_call="_cffi_backend.c: statements around ffi_call() in b_call",
              gen_api_wrapper="recompiler.py _generate_cpy_function_decl: lines emitted between Py_BEGIN/END_ALLOW_THREADS",
              gen_api_export_slots_ok="_cffi_include.h slots of _cffi_restore_errno/_cffi_save_errno vs cffi_exports[]",
              gen_glob_fetch="cglob.c fetch_global_var_addr", gen_invoke_callback="_cffi_backend.c invoke_callback",
-             gen_call_python="call_python.c cffi_call_python (no return between save and restore)",
+             gen_call_python="call_python.c cffi_call_python (textual order; control flow: gen_call_python_cfg)",
+             gen_call_python_cfg="call_python.c cffi_call_python: the whole body, statement by statement",
+             gen_invoke_callback_cfg="_cffi_backend.c invoke_callback: the whole body",
+             gen_general_invoke_callback_leaves_bracket_alone="_cffi_backend.c general_invoke_callback: no errno / "
+             "save_errno / restore_errno in its body (incl. the error: path)",
+             gen_general_invoke_callback_only_called_inside_brackets="all .c and .h files of src/c: every call of "
+             "general_invoke_callback() is in cffi_call_python or invoke_callback",
              gen_get_errno="_cffi_backend.c b_get_errno", gen_set_errno="_cffi_backend.c b_set_errno (after the range check)")
 
 
@@ -247,6 +418,8 @@ def gen_text(f, origin):
             out.append("Definition %s : bool := %s." % (k, "true" if v else "false"))
         elif isinstance(v, tuple):
             out.append("Definition %s : Z * Z := (%d, %d)%%Z." % (k, v[0], v[1]))
+        elif k.endswith("_cfg"):
+            out.append("Definition %s : list cstmt :=\n  %s." % (k, cfg_coq(v)))
         else:
             ty = "estep" if k in ("gen_get_errno", "gen_set_errno") else "bstep"
             out.append("Definition %s : list %s := [%s]." % (k, ty, "; ".join(v)))
@@ -262,9 +435,43 @@ def regen(ctx):
     st = py2coq.write_if_changed(os.path.join(vlib.COQ, "C22", "Gen.v"), gen_text(facts, origin))
     ctx.translator("C22/Gen.v", status or st)
     ctx.extra["gen_facts_equal_snapshot"] = (facts == SNAPSHOT_FACTS)
+    ctx._c22_fallback = status is not None      # the correspondence carries the run: search three times as much
 
 
 # ------------------------------------------------------------------ programs
+# (the operation language is described at the top of tools/props/c22_worker.py)
+
+def gen_cops(rng, depth, mode, budget, foreign=False):
+    cops = []
+    for _ in range(rng.choice([1, 1, 2, 3, 4])):
+        q = rng.random()
+        if q < 0.30:
+            cops.append(["cread"])
+        elif q < 0.55:
+            q2 = rng.random()
+            cops.append(["cset", 0 if q2 < 0.25 else rng.choice(C_VALUES) if q2 < 0.75
+                         else rng.randrange(INT_MIN, INT_MAX + 1)])
+        elif q < 0.64 and mode == "api":
+            cops.append(["cbu"])
+            cops.append(["cread"])
+        elif depth < 2:
+            body = gen_py(rng, depth + 1, mode, budget)
+            q3 = rng.random()
+            if q3 < 0.30:           # the callback raises / returns something that cannot be converted
+                hb = [max(1, min(budget[0], 3))]
+                budget[0] -= hb[0]
+                hops = [op for op in gen_py(rng, 3 if rng.random() < 0.7 else depth + 1, mode, hb)]
+                if rng.random() < 0.15:
+                    hops.append([rng.choice(["raise", "badret"]), []])
+                body.append([rng.choice(["raise", "raise", "badret"]), hops])
+            cops.append([rng.choice(["cb", "cb", "cbe", "cbe", "cbe"]) if q3 < 0.30 else rng.choice(["cb", "cb", "cbe"]),
+                         body])
+            if rng.random() < 0.5:
+                cops.append(["cread"])
+        else:
+            cops.append(["cread"])
+    return cops
+
 
 def gen_py(rng, depth, mode, budget):
     ops = []
@@ -285,20 +492,11 @@ def gen_py(rng, depth, mode, budget):
         elif r < 0.60 and mode == "api":
             ops.append(["glob"])
         elif depth < 3:
-            cops = []
-            for _ in range(rng.choice([1, 1, 2, 3, 4])):
-                q = rng.random()
-                if q < 0.35:
-                    cops.append(["cread"])
-                elif q < 0.65:
-                    q2 = rng.random()
-                    cops.append(["cset", 0 if q2 < 0.25 else rng.choice(C_VALUES) if q2 < 0.75
-                                 else rng.randrange(INT_MIN, INT_MAX + 1)])
-                elif depth < 2:
-                    cops.append(["cb", gen_py(rng, depth + 1, mode, budget)])
-                else:
-                    cops.append(["cread"])
-            ops.append(["call", cops])
+            if rng.random() < 0.2:
+                ops.append(["tcall", gen_cops(rng, depth, mode, budget, True),
+                            rng.choice(C_VALUES) if rng.random() < 0.8 else rng.randrange(INT_MIN, INT_MAX + 1)])
+            else:
+                ops.append(["call", gen_cops(rng, depth, mode, budget)])
         else:
             ops.append(["get"])
         if rng.random() < 0.5:
@@ -306,53 +504,86 @@ def gen_py(rng, depth, mode, budget):
     return ops
 
 
-def count_syncs(ops):
-    n = 0
-    for op in ops:
-        if op[0] == "sync":
-            n += 1
-        elif op[0] == "call":
-            for c in op[1]:
-                if c[0] == "cb":
-                    n += count_syncs(c[1])
-    return n
-
-
-def flatten(ops, out):
-    """model operations (code, value) with None as the turn separator"""
+def flatten(ops, out=None, st=None, sub=0, onerr=False):
+    """model operations (logical thread within the strand, code, value) in execution order, with None as the
+    turn separator.  Logical thread 0 is the strand's own thread, j >= 1 its j-th pthread (tcall)."""
+    if out is None:
+        out = []
+    if st is None:
+        st = dict(nsub=1)
     for op in ops:
         k = op[0]
         if k == "set":
-            out.append((0, op[1]))
+            out.append((sub, 0, op[1]))
         elif k == "get":
-            out.append((1, 0))
+            out.append((sub, 1, 0))
         elif k == "clobber":
-            out.append((2, 2))
+            out.append((sub, 2, 2))
         elif k == "sync":
             out.append(None)
         elif k == "glob":
-            out += [(3, 0), (6, 0)]
-        elif k == "call":
-            out.append((3, 0))
+            out += [(sub, 3, 0), (sub, 6, 0)]
+        elif k in ("raise", "badret"):
+            # ends the callback body (or the handler); the handler's operations run only when the
+            # callback was created with onerror=, and still inside the callback's save/restore bracket
+            if onerr:
+                flatten(op[1], out, st, sub, False)
+            break
+        elif k in ("call", "tcall"):
+            out.append((sub, 3, 0))
+            who = sub
+            if k == "tcall":
+                who = st["nsub"]
+                st["nsub"] += 1
             for c in op[1]:
                 if c[0] == "cset":
-                    out.append((4, c[1]))
+                    out.append((who, 4, c[1]))
                 elif c[0] == "cread":
-                    out.append((5, 0))
+                    out.append((who, 5, 0))
+                elif c[0] == "cbu":
+                    out += [(who, 7, 0), (who, 8, 0)]
+                elif c[0] in ("cb", "cbe"):
+                    out.append((who, 7, 0))
+                    flatten(c[1], out, st, who, c[0] == "cbe")
+                    out.append((who, 8, 0))
                 else:
-                    out.append((7, 0))
-                    flatten(c[1], out)
-                    out.append((8, 0))
-            out.append((6, 0))
+                    raise ValueError(c[0])
+            if k == "tcall":
+                out.append((sub, 4, op[2]))
+            out.append((sub, 6, 0))
+        else:
+            raise ValueError(k)
     return out
 
 
+def count_syncs(ops):
+    return flatten(ops).count(None)
+
+
+def nsubs(prog):
+    st = dict(nsub=1)
+    flatten(prog, [], st)
+    return st["nsub"]
+
+
+def model_tids(case):
+    """(strand, logical thread) -> model thread id: strands first, then the pthreads in (strand, creation) order"""
+    n = len(case["progs"])
+    tid, nxt = {}, n
+    for t, p in enumerate(case["progs"]):
+        tid[(t, 0)] = t
+        for j in range(1, nsubs(p)):
+            tid[(t, j)] = nxt
+            nxt += 1
+    return tid, nxt
+
+
 def model_schedule(case):
+    tid, _ = model_tids(case)
     segs = []
     for t, p in enumerate(case["progs"]):
-        flat = flatten(p, [])
         cur, mine = [], []
-        for x in flat:
+        for x in flatten(p):
             if x is None:
                 mine.append(cur)
                 cur = []
@@ -363,25 +594,87 @@ def model_schedule(case):
     pos = [0] * len(segs)
     out = []
     for t in case["sched"]:
-        out += [(t, c, v) for (c, v) in segs[t][pos[t]]]
+        out += [(tid[(t, j)], c, v) for (j, c, v) in segs[t][pos[t]]]
         pos[t] += 1
     return out
 
 
 def spec_obs(ops):
-    """the one-cell specification (property text): observations of one thread"""
-    z, obs = 0, []
-    for (c, v) in [x for x in flatten(ops, []) if x is not None]:
-        if c == 0:
-            if INT_MIN <= v <= INT_MAX:
+    """the one-cell specification (property text): observations of the strand's logical threads"""
+    flat = [x for x in flatten(ops) if x is not None]
+    res = []
+    for j in range(nsubs(ops)):
+        z, obs = 0, []
+        for (jj, c, v) in flat:
+            if jj != j:
+                continue
+            if c == 0:
+                if INT_MIN <= v <= INT_MAX:
+                    z = v
+                else:
+                    obs.append(OVERFLOW)
+            elif c in (1, 5):
+                obs.append(z)
+            elif c == 4:
                 z = v
-            else:
-                obs.append(OVERFLOW)
-        elif c in (1, 5):
-            obs.append(z)
-        elif c == 4:
-            z = v
-    return obs
+        res.append(obs)
+    return res
+
+
+OP_TEXT = {0: "Python: ffi.errno = %d", 1: "Python reads ffi.errno", 2: "interpreter noise (failing os.stat)",
+           3: "C function called through cffi", 4: "C: errno = %d", 5: "C reads errno", 6: "C function returns",
+           7: "C invokes the callback", 8: "callback returns to C"}
+
+
+def obs_context(ops, j, k):
+    """the operations of logical thread j that lead to its observation #k (for messages)"""
+    hist, n = [], 0
+    for x in flatten(ops):
+        if x is None or x[0] != j:
+            continue
+        _j, c, v = x
+        hist.append(OP_TEXT[c] % v if "%" in OP_TEXT[c] else OP_TEXT[c])
+        if c in (1, 5) or (c == 0 and not INT_MIN <= v <= INT_MAX):
+            if n == k:
+                return " -> ".join(hist[-5:])
+            n += 1
+    return "?"
+
+
+def scenario(mode, kind, x, w):
+    """C sets errno = x, invokes a callback of the given kind, reads errno; Python reads ffi.errno afterwards"""
+    if kind == "cbu":
+        cb = [["cbu"]]
+    elif kind == "raise":
+        cb = [["cb", [["get"], ["set", w], ["sync"], ["raise", [["set", w + 1]]]]]]
+    elif kind == "raise0":
+        cb = [["cb", [["clobber"], ["raise", []]]]]
+    elif kind == "onerror":
+        cb = [["cbe", [["get"], ["set", w], ["raise", [["get"], ["sync"], ["clobber"], ["set", w + 1]]]]]]
+    elif kind == "onerror-keep":
+        cb = [["cbe", [["raise", [["clobber"], ["get"]]]]]]
+    elif kind == "badret":
+        cb = [["cbe", [["set", w], ["badret", [["get"], ["set", w + 2], ["raise", []]]]]]]
+    elif kind == "nested":
+        cb = [["cb", [["get"], ["call", [["cread"], ["cset", w], ["cbe", [["get"], ["set", w + 1], ["sync"],
+                                                                          ["raise", [["set", w + 2]]]]],
+                                         ["cread"]] + ([["cbu"], ["cread"]] if mode == "api" else [])],
+                      ["get"]]]]
+    else:
+        raise ValueError(kind)
+    return [["call", [["cset", x]] + cb + [["cread"]]], ["get"]]
+
+
+def interleave2(a, b):
+    out = []
+    while a or b:
+        if a:
+            out.append(0)
+            a -= 1
+        if b:
+            out.append(1)
+            b -= 1
+    return out
 
 
 def directed(mode):
@@ -414,6 +707,45 @@ def directed(mode):
     if mode == "api":
         cs.append(dict(mode=mode, progs=[[["set", 0], ["clobber"], ["glob"], ["get"], ["set", 4], ["glob"], ["get"]]],
                        sched=[0]))
+    # every way a callback can end, in every thread: "C sets errno = x, invokes the callback, reads errno;
+    # Python reads ffi.errno" — un-attached extern "Python" (API), exception with and without onerror,
+    # unconvertible result, nested callbacks; single-threaded, then in all threads of 2-4 thread interleavings
+    kinds = (["cbu"] if mode == "api" else []) + ["raise", "raise0", "onerror", "onerror-keep", "badret", "nested"]
+    for kd in kinds:
+        p0 = [["set", 5]] + scenario(mode, kd, 11, 20)
+        cs.append(dict(mode=mode, progs=[p0], sched=[0] * (count_syncs(p0) + 1)))
+        p0 = [["set", 5], ["sync"]] + scenario(mode, kd, 11, 20)
+        p1 = [["set", 7], ["sync"]] + scenario(mode, kd, 13, 30) + [["sync"], ["get"]]
+        cs.append(dict(mode=mode, progs=[p0, p1], sched=interleave2(count_syncs(p0) + 1, count_syncs(p1) + 1)))
+    one = []
+    for i, kd in enumerate(kinds):
+        one += [["set", 70 + i]] + scenario(mode, kd, 100 + 10 * i, 200 + 10 * i)
+    cs.append(dict(mode=mode, progs=[one], sched=[0] * (count_syncs(one) + 1)))
+    for n in (2, 3, 4):
+        progs = []
+        for t in range(n):
+            p = []
+            for i, kd in enumerate(kinds[t % 2:] + kinds[:t % 2]):
+                p += [["set", 1000 * (t + 1) + i], ["sync"]] + scenario(mode, kd, 1000 * (t + 1) + 100 + 10 * i,
+                                                                        1000 * (t + 1) + 200 + 10 * i) + [["sync"]]
+            progs.append(p)
+        turns = [count_syncs(p) + 1 for p in progs]
+        sched = []
+        while any(turns):
+            for t in range(n):
+                if turns[t]:
+                    sched.append(t)
+                    turns[t] -= 1
+        cs.append(dict(mode=mode, progs=progs, sched=sched))
+    # callbacks invoked from threads that never held the GIL, while another thread uses errno
+    inner = [["cread"], ["cset", 21]] + ([["cbu"], ["cread"]] if mode == "api" else []) + [
+        ["cb", [["get"], ["sync"], ["set", 22], ["clobber"]]], ["cread"], ["cset", 23],
+        ["cbe", [["get"], ["raise", [["get"], ["set", 24], ["sync"]]]]], ["cread"],
+        ["cb", [["tcall", [["cread"], ["cset", 31], ["cb", [["get"], ["set", 32]]], ["cread"]], 41], ["get"]]], ["cread"]]
+    cs.append(dict(mode=mode, progs=[[["set", 5], ["tcall", inner, 33], ["get"], ["call", [["cread"]]]],
+                                     [["set", 7], ["sync"], ["call", [["cread"], ["cset", 8]]], ["sync"], ["get"], ["sync"],
+                                      ["tcall", [["cread"], ["cb", [["get"], ["set", 9]]], ["cread"]], 10], ["get"]]],
+                   sched=[0, 1, 0, 1, 0, 1, 1]))
     return cs
 
 
@@ -422,7 +754,7 @@ def generate(ctx):
     cases = []
     for mode in ("abi", "api"):
         cases += directed(mode)
-        for _ in range(ctx.n(120, 1400)):
+        for _ in range(ctx.n(120, 1000) * (3 if getattr(ctx, "_c22_fallback", False) else 1)):
             n = rng.choice([1, 2, 2, 3, 3, 4])
             progs = [gen_py(rng, 0, mode, [rng.choice([4, 8, 12])]) for _ in range(n)]
             turns = []
@@ -470,6 +802,37 @@ def run_workers(ctx, cases, timeout):
     return [out[id(c)] for c in cases]
 
 
+def features(progs):
+    f = set()
+
+    def walk(ops, in_cb, onerr):
+        for op in ops:
+            k = op[0]
+            if k in ("raise", "badret"):
+                f.add(k + ("+onerror" if onerr else ""))
+                if onerr:
+                    walk(op[1], in_cb, False)
+                break
+            if k == "tcall":
+                f.add("foreign-thread")
+            if k in ("call", "tcall"):
+                for c in op[1]:
+                    if c[0] == "cbu":
+                        f.add("unattached")
+                    elif c[0] in ("cb", "cbe"):
+                        f.add("nested-callback" if in_cb else "callback")
+                        if k == "tcall":
+                            f.add("callback-in-foreign-thread")
+                        walk(c[1], True, c[0] == "cbe")
+    for p in progs:
+        walk(p, False, False)
+    return f
+
+
+def describe(t, j):
+    return "thread %d" % t if j == 0 else "pthread #%d started by thread %d" % (j, t)
+
+
 def evaluate(ctx, cases):
     cases = [dict(mode=c["mode"], progs=c["progs"], sched=c["sched"]) for c in cases]
     results = run_workers(ctx, cases, 30)
@@ -482,6 +845,9 @@ def evaluate(ctx, cases):
         n = len(c["progs"])
         ctx.hist("threads", n)
         ctx.hist("mode", c["mode"])
+        feats = features(c["progs"])
+        for ft in feats:
+            ctx.hist("callback paths", ft)
         bad = []
         for tag in ("inter", "alone"):
             if r[tag]["status"] != "ok":
@@ -496,29 +862,42 @@ def evaluate(ctx, cases):
             if inter[t] and inter[t][0] == "error":
                 bad.append("thread %d failed: %r" % (t, inter[t]))
             elif inter[t] != want:
-                k = next((j for j in range(min(len(want), len(inter[t]))) if want[j] != inter[t][j]), None)
-                bad.append("thread %d observed errno %r where its own logical errno is %r (observation #%r; all: %r, "
-                           "expected %r)" % (t, inter[t][k] if k is not None else None,
-                                             want[k] if k is not None else None, k, inter[t], want))
+                if len(inter[t]) != len(want):
+                    bad.append("thread %d started %d pthreads, expected %d" % (t, len(inter[t]) - 1, len(want) - 1))
+                for j in range(min(len(want), len(inter[t]))):
+                    if inter[t][j] != want[j]:
+                        k = next((i for i in range(min(len(want[j]), len(inter[t][j]))) if want[j][i] != inter[t][j][i]),
+                                 None)
+                        bad.append("%s observed errno %r where its own logical errno is %r (observation #%r, after: %s; "
+                                   "all: %r, expected %r)" % (
+                                       describe(t, j), inter[t][j][k] if k is not None else None,
+                                       want[j][k] if k is not None else None, k,
+                                       obs_context(c["progs"][t], j, k) if k is not None else "?", inter[t][j], want[j]))
             if alone[t] != inter[t]:
                 bad.append("thread %d observes %r when interleaved with the others but %r when run alone"
                            % (t, inter[t], alone[t]))
         if bad:
-            ctx.violation(dict(c, observed=r), "errno (%s mode, %d threads): %s" % (c["mode"], n, "; ".join(bad[:2])))
+            ctx.violation(dict(c, observed=r), "errno (%s mode, %d threads%s): %s" % (
+                c["mode"], n, "; " + ", ".join(sorted(feats)) if feats else "", "; ".join(bad[:2])))
             continue
-        nobs = sum(len(x) for x in inter)
+        nobs = sum(len(y) for x in inter for y in x)
         ctx.hist("observations", min(nobs, 20))
-        if nobs >= 2 and (n >= 2 or any(op[0] == "call" for op in c["progs"][0])):
+        if nobs >= 2 and (n >= 2 or any(op[0] in ("call", "tcall") for op in c["progs"][0])):
             ctx.nontrivial((c["mode"], c["progs"], c["sched"]))
         flat = []
         for t in range(n):
-            flat += [len(inter[t])] + inter[t]
+            flat += [len(inter[t][0])] + inter[t][0]
+        for t in range(n):
+            for sub in inter[t][1:]:
+                flat += [len(sub)] + sub
         steps = model_schedule(c)
-        coqcases.append((vlib.cpair(vlib.cnat(n), "[" + ";".join("%d" % enc_step(*s) for s in steps) + "]%Z"),
+        _tid, total = model_tids(c)
+        coqcases.append(("(%s, %s, [%s]%%Z)" % (vlib.cnat(n), vlib.cnat(total - n), ";".join("%d" % enc_step(*s) for s in steps)),
                          "(Some (%d, %d)%%Z)" % (fpz(2305843009213693951, 1000003, flat), fpz(2147483647, 48271, flat))))
         owner.append((c, r))
     badidx, outs, err = vlib.coq_mismatches(
-        ["C22.Model"], "fun x => run_code (fst x) (snd x)", "opt_eqb (pair_eqb Z.eqb Z.eqb)", coqcases, shard=120)
+        ["C22.Model"], "fun x => run_code2 (fst (fst x)) (snd (fst x)) (snd x)", "opt_eqb (pair_eqb Z.eqb Z.eqb)",
+        coqcases, shard=120)
     if err:
         ctx.obligation_broken("C22 model evaluation", err)
     for k, i in enumerate(badidx):
@@ -526,8 +905,9 @@ def evaluate(ctx, cases):
         model = ""
         if k < 3:
             steps = model_schedule(c)
+            _tid, total = model_tids(c)
             ok, out = vlib.coq_eval(["C22.Model"], "Eval vm_compute in (run_sched false %d %s).\n" % (
-                len(c["progs"]), vlib.clist(["(%d%%nat, (%s, %s))" % (t, vlib.cz(cc), vlib.cz(v)) for t, cc, v in steps])))
+                total, vlib.clist(["(%d%%nat, (%s, %s))" % (t, vlib.cz(cc), vlib.cz(v)) for t, cc, v in steps])))
             model = " ".join(out.split())[:1200]
         ctx.mismatch(dict(c, observed=r), "model run_sched false: %s ; implementation: %r" % (model, r["inter"]["obs"]),
                      "C22.Model (step1/crun) vs misc_thread_common.h + _cffi_backend.c errno paths")
@@ -539,30 +919,48 @@ def evaluate(ctx, cases):
 def run(ctx):
     ctx.cov["rule"] = ("generated thread programs (1-4 threads; ffi.errno get/set incl. out-of-range values, interpreter "
                        "noise, C helper calls that read/assign errno and call back, callbacks that read/assign ffi.errno "
-                       "and call C again, nesting <= 3; API mode adds a global-variable fetch) with hand-over points "
-                       "between and inside C calls, run under a random interleaving and again serially, in ABI mode "
-                       "(ffi.dlopen + ffi.callback) and API mode (compiled module + extern \"Python\"). Non-trivial = at "
-                       "least 2 observations and (>= 2 threads or a C call); distinct by (mode, programs, schedule).")
+                       "and call C again, nesting <= 3; callbacks that raise or return an unconvertible value, with and "
+                       "without onerror= (the handler reads/assigns ffi.errno too); C scripts run in a fresh pthread that "
+                       "never held the GIL and calls back; API mode adds a global-variable fetch and an extern \"Python\" "
+                       "function with no @ffi.def_extern() attached) with hand-over points between and inside C calls, "
+                       "callbacks and onerror handlers, run under a random interleaving and again serially, in ABI mode "
+                       "(ffi.dlopen + ffi.callback) and API mode (compiled module + extern \"Python\"); plus directed cases: "
+                       "every way a callback can end x 'C sets errno, invokes it, reads errno; Python reads ffi.errno' in "
+                       "every thread of 1-4 thread interleavings. Non-trivial = at least 2 observations and (>= 2 threads "
+                       "or a C call); distinct by (mode, programs, schedule).")
     ctx.assumptions += [
         "hypothesis of the theorems: __thread storage (cffi_saved_errno) and the C library's errno are per thread "
         "(the model with a process-wide saved cell is refuted: C22_shared_saved_refuted)",
-        "hand model C22/Model.v tied to the code by this run's differential test only",
+        "C22/Gen.v regenerated from the sources on every run (fail closed): bodies of save/restore_errno_only, "
+        "b_get_errno, b_set_errno; statement order around ffi_call in b_call, in the generated API wrappers, in "
+        "fetch_global_var_addr; the whole bodies of cffi_call_python and invoke_callback as control-flow trees "
+        "(conditions uninterpreted: all syntactic paths); general_invoke_callback has no errno code of its own and no "
+        "other caller. Classification of callees (gil_ensure, fprintf, memset, ... = may change errno; read_barrier, "
+        "_current_interp_key = do not) is the translator's table",
+        "the abstract operations of C22/Model.v and the C helper's reading of errno are tied to the code by this run's "
+        "differential test",
         "interpreter noise on errno is what CPython happens to do between operations plus failing os.stat calls"]
     evaluate(ctx, generate(ctx))
 
 
 MANIFEST = dict(
-    technique="Coq proof (non-interference for all schedules and thread counts + refinement of a one-cell specification) "
-              "+ differential correspondence on real threads in ABI and API mode",
-    text="Proof: in the model of save_errno/restore_errno, b_get_errno/b_set_errno, C calls and callbacks, for every "
-         "schedule over any number of threads every thread observes exactly one logical errno of its own: values assigned "
-         "to ffi.errno reach the C code, values left by C code or assigned in callbacks reach ffi.errno, interpreter noise "
-         "and other threads are invisible; out-of-range assignments are refused. The four call paths of the property "
-         "(ABI call, API-mode wrapper, callbacks / extern \"Python\", global-variable fetch) share one restore/call/save "
-         "bracket in the model; that each real path brackets its call this way is decided by the correspondence only. "
-         "Partial: thread-locality of __thread "
+    technique="Coq proof (thread-locality for all schedules and thread counts at operation and at statement granularity; "
+              "refinement of a one-cell specification; all syntactic paths of the callback brackets) + regenerated "
+              "statement orders / control flow + differential correspondence on real threads in ABI and API mode",
+    text="Proof: for every schedule over any number of threads every thread observes exactly one logical errno of its own "
+         "(values assigned to ffi.errno reach the C code, values left by C code or assigned in callbacks reach ffi.errno, "
+         "interpreter noise and other threads are invisible, out-of-range assignments are refused) - proved for the "
+         "abstract operations and again at statement level, where each operation is expanded into the statements "
+         "REGENERATED from the source of the path it takes (b_get_errno/b_set_errno; b_call, generated API wrapper, "
+         "global-variable accessor; every syntactic path of cffi_call_python and invoke_callback) and threads interleave "
+         "between any two statements. For the callback brackets: on every path save_errno() comes first and restore_errno() "
+         "last with the Python code, error reporting, GIL operations in between, so the C errno after the callback is the "
+         "logical errno at the end of the Python code, or the C errno before the call on paths that run no Python code "
+         "(un-attached extern \"Python\"). Threads created by C code are covered. Partial: thread-locality of __thread "
          "storage and of the C errno is the hypothesis (its negation is refuted in the model and caught on the real code "
-         "by the interleaved runs).",
-    note="Trusted: Coq kernel; hand model tied by differential runs (ABI: b_call/invoke_callback; API: generated wrappers, "
-         "cffi_call_python, global accessor); gcc; glibc TLS. Theorems closed under the global context.",
+         "by the interleaved runs); `if` conditions are uninterpreted (all syntactic paths, a superset).",
+    note="Trusted: Coq kernel; the fail-closed C statement translator in tools/props/c22.py and its callee table; the "
+         "differential runs (ABI: b_call/invoke_callback; API: generated wrappers, cffi_call_python incl. the un-attached "
+         "path, global accessor; callbacks raising / with onerror / from pthreads that never held the GIL / nested); gcc; "
+         "glibc TLS. Theorems closed under the global context.",
     design_ref="DESIGN.md §4 C22")
